@@ -128,4 +128,243 @@ theorem toks_resp (h : List Tok → UInt64) : ∀ (τ : Ty) (a b : Val τ), Equi
     simp only [List.length_map, List.flatMap_map]
     rw [all2_length e, flatMap_congr_all2 key e]
 
+
+/-! ### distinct values feed distinct byte streams (and every stream is self-delimiting) -/
+
+theorem pow1 : (256 : Nat) ^ 1 = 2 ^ 8 := by decide
+theorem pow4 : (256 : Nat) ^ 4 = 2 ^ 32 := by decide
+theorem pow8 : (256 : Nat) ^ 8 = 2 ^ 64 := by decide
+
+theorem core8 {n m : Nat} (hn : n < 2 ^ 64) (hm : m < 2 ^ 64) : Core (le 8) Eq n m :=
+  core_le (by rw [pow8]; exact hn) (by rw [pow8]; exact hm)
+
+theorem trim_sub : ∀ (c : VClock.Clock), (∀ x ∈ VClock.trim c, x ∈ c) ∧ (VClock.trim c).length ≤ c.length
+  | [] => by simp [VClock.trim]
+  | x :: xs => by
+    obtain ⟨h1, h2⟩ := trim_sub xs
+    rw [VClock.trim_cons]
+    split
+    · simp
+    · constructor
+      · intro y hy
+        rcases List.mem_cons.1 hy with rfl | hy
+        · simp
+        · simp [h1 y hy]
+      · simp; omega
+
+/-- the discriminant of a derived enum separates the variants -/
+theorem core_disc {α β} {g1 : α → List Nat} {g2 : β → List Nat} (d1 d2 : Nat) (h1 : d1 < 2 ^ 64) (h2 : d2 < 2 ^ 64)
+    (a : α) (b : β) (x y : List Nat) (h : le 8 d1 ++ (g1 a ++ x) = le 8 d2 ++ (g2 b ++ y)) :
+    d1 = d2 ∧ g1 a ++ x = g2 b ++ y := core8 h1 h2 _ _ h
+
+theorem core_entry (h : List Tok → UInt64) (P : List Tok → Prop) (r : Ty)
+    (ih : ∀ (a b : Val r), WF h P r a → WF h P r b → Core (fun v => flat (toks h r v)) (Equiv r) a b)
+    (e f : List Nat × List (Val r))
+    (we : StrOk e.1 ∧ LenOk e.2 ∧ AllMem (WF h P r) e.2) (wf : StrOk f.1 ∧ LenOk f.2 ∧ AllMem (WF h P r) f.2)
+    (heq : strToks e.1 ++ seqToks r.isBlock (e.2.map (toks h r)) = strToks f.1 ++ seqToks r.isBlock (f.2.map (toks h r))) :
+    e.1 = f.1 ∧ All2 (Equiv r) e.2 f.2 := by
+  have hf := congrArg flat heq
+  simp only [flat_append, flat_strToks, flat_seqToks, List.length_map, List.flatMap_map] at hf
+  have hf' : (e.1 ++ [255]) ++ (le 8 e.2.length ++ (e.2.flatMap (fun v => flat (toks h r v)) ++ [])) =
+      (f.1 ++ [255]) ++ (le 8 f.2.length ++ (f.2.flatMap (fun v => flat (toks h r v)) ++ [])) := by
+    simpa using hf
+  obtain ⟨e1, rest⟩ := core_str e.1 f.1 we.1 wf.1 _ _ hf'
+  obtain ⟨e2, _⟩ := core_lseq (g := fun v => flat (toks h r v)) (R := Equiv r) e.2 f.2 we.2.1 wf.2.1
+    (fun a ha b hb => ih a b (we.2.2 a ha) (wf.2.2 b hb)) [] [] rest
+  exact ⟨e1, e2⟩
+
+theorem core_all (h : List Tok → UInt64) (P : List Tok → Prop) (hinj : InjOnP h P) :
+    ∀ (τ : Ty) (a b : Val τ), WF h P τ a → WF h P τ b →
+      Core (fun v => flat (toks h τ v)) (Equiv τ) a b := by
+  intro τ
+  induction τ with
+  | unit =>
+    intro a b _ _ x y hxy
+    simp only [toks, flat_nil, List.nil_append] at hxy
+    exact ⟨trivial, hxy⟩
+  | bool =>
+    intro a b _ _ x y hxy
+    simp only [toks, flat_cons, Tok.flat, flat_nil, List.append_nil] at hxy
+    simp only [Equiv]
+    cases a <;> cases b <;> simp [le] at hxy <;> simp [hxy]
+  | u8 =>
+    intro a b wa wb x y hxy
+    simp only [toks, flat_cons, Tok.flat, flat_nil, List.append_nil] at hxy
+    simp only [WF, NatLt] at wa wb
+    simp only [Equiv]
+    exact core_le (w := 1) (by rw [pow1]; exact wa) (by rw [pow1]; exact wb) x y hxy
+  | u32 =>
+    intro a b wa wb x y hxy
+    simp only [toks, flat_cons, Tok.flat, flat_nil, List.append_nil] at hxy
+    simp only [WF, NatLt] at wa wb
+    simp only [Equiv]
+    exact core_le (w := 4) (by rw [pow4]; exact wa) (by rw [pow4]; exact wb) x y hxy
+  | u64 =>
+    intro a b wa wb x y hxy
+    simp only [toks, flat_cons, Tok.flat, flat_nil, List.append_nil] at hxy
+    simp only [WF, NatLt] at wa wb
+    simp only [Equiv]
+    exact core8 wa wb x y hxy
+  | usize =>
+    intro a b wa wb x y hxy
+    simp only [toks, flat_cons, Tok.flat, flat_nil, List.append_nil] at hxy
+    simp only [WF, NatLt] at wa wb
+    simp only [Equiv]
+    exact core8 wa wb x y hxy
+  | id =>
+    intro a b wa wb x y hxy
+    simp only [toks, flat_cons, Tok.flat, flat_nil, List.append_nil] at hxy
+    simp only [WF, NatLt] at wa wb
+    simp only [Equiv]
+    exact core8 wa wb x y hxy
+  | str =>
+    intro a b wa wb x y hxy
+    simp only [toks, flat_strToks] at hxy
+    simp only [WF] at wa wb
+    simp only [Equiv]
+    exact core_str a b wa wb x y hxy
+  | arc t ih =>
+    intro a b wa wb x y hxy
+    simp only [toks] at hxy
+    simp only [WF] at wa wb
+    simp only [Equiv]
+    exact ih a b wa wb x y hxy
+  | tup s t ihs iht =>
+    intro a b wa wb x y hxy
+    simp only [toks, flat_append, List.append_assoc] at hxy
+    simp only [WF] at wa wb
+    simp only [Equiv]
+    obtain ⟨r1, r2, e⟩ := core_append (ihs a.1 b.1 wa.1 wb.1) (iht a.2 b.2 wa.2 wb.2) x y hxy
+    exact ⟨⟨r1, r2⟩, e⟩
+  | enum2 s t ihs iht =>
+    intro a b wa wb x y hxy
+    cases a <;> cases b <;> simp only [toks, flat_discToks, List.append_assoc] at hxy <;>
+      simp only [WF] at wa wb <;> simp only [Equiv] <;>
+      obtain ⟨d, hxy'⟩ := core_disc _ _ (by decide) (by decide) _ _ x y hxy
+    · exact ihs _ _ wa wb x y hxy'
+    · cases d
+    · cases d
+    · exact iht _ _ wa wb x y hxy'
+  | enum3 s t u ihs iht ihu =>
+    intro a b wa wb x y hxy
+    rcases a with a | a | a <;> rcases b with b | b | b <;>
+      simp only [toks, flat_discToks, List.append_assoc] at hxy <;>
+      simp only [WF] at wa wb <;> simp only [Equiv] <;>
+      obtain ⟨d, hxy'⟩ := core_disc _ _ (by decide) (by decide) _ _ x y hxy
+    · exact ihs _ _ wa wb x y hxy'
+    · cases d
+    · cases d
+    · cases d
+    · exact iht _ _ wa wb x y hxy'
+    · cases d
+    · cases d
+    · cases d
+    · exact ihu _ _ wa wb x y hxy'
+  | vec t ih =>
+    intro (a : List (Val t)) (b : List (Val t)) wa wb x y hxy
+    simp only [toks, flat_seqToks, List.length_map, List.flatMap_map, List.append_assoc] at hxy
+    simp only [WF] at wa wb
+    simp only [Equiv]
+    exact core_lseq (g := fun v => flat (toks h t v)) a b wa.1 wb.1
+      (fun p hp q hq => ih p q (wa.2 p hp) (wb.2 q hq)) x y hxy
+  | deque t ih =>
+    intro (a : List (Val t)) (b : List (Val t)) wa wb x y hxy
+    simp only [toks, flat_seqToks, List.length_map, List.flatMap_map, List.append_assoc] at hxy
+    simp only [WF] at wa wb
+    simp only [Equiv]
+    exact core_lseq (g := fun v => flat (toks h t v)) a b wa.1 wb.1
+      (fun p hp q hq => ih p q (wa.2 p hp) (wb.2 q hq)) x y hxy
+  | bset t ih =>
+    intro (a : List (Val t)) (b : List (Val t)) wa wb x y hxy
+    simp only [toks, flat_seqToks, List.length_map, List.flatMap_map, List.append_assoc] at hxy
+    simp only [WF] at wa wb
+    simp only [Equiv]
+    exact core_lseq (g := fun v => flat (toks h t v)) a b wa.1 wb.1
+      (fun p hp q hq => ih p q (wa.2 p hp) (wb.2 q hq)) x y hxy
+  | bmap k v ihk ihv =>
+    intro (a : List (Val k × Val v)) (b : List (Val k × Val v)) wa wb x y hxy
+    simp only [toks, flat_seqToks, List.length_map, List.flatMap_map, List.append_assoc] at hxy
+    simp only [WF] at wa wb
+    simp only [Equiv]
+    refine core_lseq (g := fun (p : Val k × Val v) => flat (toks h k p.1 ++ toks h v p.2)) a b wa.1 wb.1 ?_ x y hxy
+    intro p hp q hq x' y' h'
+    simp only [flat_append, List.append_assoc] at h'
+    obtain ⟨r1, r2, e⟩ := core_append (ihk p.1 q.1 (wa.2 p hp).1 (wb.2 q hq).1)
+      (ihv p.2 q.2 (wa.2 p hp).2 (wb.2 q hq).2) x' y' h'
+    exact ⟨⟨r1, r2⟩, e⟩
+  | hset t ih =>
+    intro (a : List (Val t)) (b : List (Val t)) wa wb
+    simp only [WF] at wa wb
+    simp only [Equiv, toks]
+    refine core_set h P hinj (toks h t) (Equiv t) a b wa.1 wb.1
+      (fun p hp => (wa.2 p hp).2) (fun q hq => (wb.2 q hq).2) ?_
+    intro p hp q hq e
+    exact (ih p q (wa.2 p hp).1 (wb.2 q hq).1 [] []
+      (by show flat (toks h t p) ++ [] = flat (toks h t q) ++ []; rw [e])).1
+  | hmap k v ihk ihv =>
+    intro (a : List (Val k × Val v)) (b : List (Val k × Val v)) wa wb
+    simp only [WF] at wa wb
+    simp only [Equiv, toks]
+    refine core_set h P hinj (fun (p : Val k × Val v) => toks h k p.1 ++ toks h v p.2) _ a b wa.1 wb.1
+      (fun p hp => (wa.2 p hp).2.2) (fun q hq => (wb.2 q hq).2.2) ?_
+    intro p hp q hq e
+    have e' := congrArg flat e
+    simp only [flat_append] at e'
+    have e'' : flat (toks h k p.1) ++ (flat (toks h v p.2) ++ []) = flat (toks h k q.1) ++ (flat (toks h v q.2) ++ []) := by
+      simpa using e'
+    obtain ⟨r1, r2, _⟩ := core_append (ihk p.1 q.1 (wa.2 p hp).1 (wb.2 q hq).1)
+      (ihv p.2 q.2 (wa.2 p hp).2.1 (wb.2 q hq).2.1) [] [] e''
+    exact ⟨r1, r2⟩
+  | vclock =>
+    intro (a : List Nat) (b : List Nat) wa wb x y hxy
+    simp only [toks, flat_seqToks, List.length_map, List.flatMap_map, List.append_assoc] at hxy
+    simp only [WF] at wa wb
+    simp only [Equiv]
+    have hg : (fun (x : Nat) => flat [Tok.u32 x]) = le 4 := by
+      funext x; simp [flat_cons, Tok.flat, flat_nil]
+    rw [hg] at hxy
+    obtain ⟨sa, la⟩ := trim_sub a
+    obtain ⟨sb, lb⟩ := trim_sub b
+    obtain ⟨e, exy⟩ := core_lseq (g := le 4) (R := Eq) (VClock.trim a) (VClock.trim b)
+      (by unfold LenOk at *; omega) (by unfold LenOk at *; omega)
+      (fun p hp q hq => core_le (w := 4) (by rw [pow4]; exact wa.2 p (sa p hp)) (by rw [pow4]; exact wb.2 q (sb q hq)))
+      x y hxy
+    refine ⟨?_, exy⟩
+    intro i
+    rw [← VClock.get0_trim a i, ← VClock.get0_trim b i, all2_eq e]
+  | choices r ih =>
+    intro (a : List (List (List Nat × List (Val r)))) (b : List (List (List Nat × List (Val r)))) wa wb x y hxy
+    simp only [WF] at wa wb
+    simp only [Equiv]
+    simp only [toks, flat_choicesToks] at hxy
+    have ea := pendingFrom_map
+      (fun (p : List Nat × List (Val r)) => strToks p.1 ++ seqToks r.isBlock (p.2.map (toks h r))) 0 a
+    have eb := pendingFrom_map
+      (fun (p : List Nat × List (Val r)) => strToks p.1 ++ seqToks r.isBlock (p.2.map (toks h r))) 0 b
+    rw [ea, eb] at hxy
+    simp only [List.length_map, List.flatMap_map, List.append_assoc] at hxy
+    have la := pendingFrom_length_le 0 a
+    have lb := pendingFrom_length_le 0 b
+    refine core_lseq
+      (g := fun (p : Nat × List (List Nat × List (Val r))) => le 8 p.1 ++ flat (setToks h
+        (p.2.map fun e => strToks e.1 ++ seqToks r.isBlock (e.2.map (toks h r)))))
+      (pendingFrom 0 a) (pendingFrom 0 b)
+      (by unfold LenOk at *; omega) (by unfold LenOk at *; omega) ?_ x y hxy
+    intro p hp q hq x' y' h'
+    obtain ⟨_, pi, pm⟩ := mem_pendingFrom 0 a p hp
+    obtain ⟨_, qi, qm⟩ := mem_pendingFrom 0 b q hq
+    have wp := wa.2 p.2 pm
+    have wq := wb.2 q.2 qm
+    simp only [List.append_assoc] at h'
+    have c1 : Core (le 8) Eq p.1 q.1 := core8 (by unfold LenOk at *; omega) (by unfold LenOk at *; omega)
+    have c2 := core_set h P hinj
+      (fun (e : List Nat × List (Val r)) => strToks e.1 ++ seqToks r.isBlock (e.2.map (toks h r)))
+      (fun e f => e.1 = f.1 ∧ All2 (Equiv r) e.2 f.2) p.2 q.2 wp.1 wq.1
+      (fun e he => (wp.2 e he).2.2.2) (fun f hf => (wq.2 f hf).2.2.2)
+      (fun e he f hf heq => core_entry h P r ih e f
+        ⟨(wp.2 e he).1, (wp.2 e he).2.1, (wp.2 e he).2.2.1⟩
+        ⟨(wq.2 f hf).1, (wq.2 f hf).2.1, (wq.2 f hf).2.2.1⟩ heq)
+    obtain ⟨r1, r2, e⟩ := core_append c1 c2 x' y' h'
+    exact ⟨⟨r1, r2⟩, e⟩
+
 end SR.Hash
